@@ -47,4 +47,5 @@ def run(idx, rep, tier):
               "every returned translation vector must have length degree 1 (unit normal times a distance); inferred degrees %s" % (res,))
     misc2.r_dupcond(idx, rep, [m.name for m in idx.lib_modules()], floor=3)
     epa.r_loudcap(idx, rep)
+    degree.r_tolunit(idx, rep, ["distance3d.epa"], floor=1, face_arrays=degree.EPA_FACES)
     unpack.r_unpack(idx, rep, floor=1)
